@@ -34,7 +34,7 @@ ASSUMPTIONS = [
 MANIFEST = {
     "level": LEVEL,
     "technique": "deterministic simulation: seeded histories of nested enable/disable context managers with injected exceptional exits, checked against a save/restore stack model",
-    "text": "Two parts. Exhaustive table: every gated construct (35, incl. list/tensor constructs nested inside generator expressions, tuples, conditional expressions, generic calls and arguments of overloaded calls) in every context (11: top level, if/else, loops, nested functions incl. under if/for and two levels deep, callee, struct method), checked and compiled with the gate closed / open / closed again through the context managers. Seeded exploration of histories (nesting <= 4, exceptions injected at drawn positions and caught at drawn levels) over the real flag, context managers and all gate sites; after every op the flag equals the reference stack model and every probe program is accepted iff ungated or the model says the gate is open. Sampling, not proof.",
+    "text": "Two parts. Exhaustive table: every gated construct (35, incl. list/tensor constructs nested inside generator expressions, tuples, conditional expressions, generic calls and arguments of overloaded calls) in every context (11: top level, if/else, loops, nested functions incl. under if/for and two levels deep, callee, struct method), checked and compiled with the gate closed / open / closed again through the context managers. Seeded exploration of histories (nesting <= 4, exceptions injected at drawn positions and caught at drawn levels, probe programs optionally carrying a second ordinary mistake, definitions created early or at first check, leaf ops optionally issued from another caller thread or a fresh contextvars context) over the real flag, context managers and all gate sites; after every op the flag equals the reference stack model and every probe program is accepted iff ungated or the model says the gate is open. Sampling, not proof.",
     "note": "Trusted: the reference stack model (20 lines), the probe-program table (validated by bin/c33_table.py: all 385 gated kind x context pairs are rejected closed / accepted open, and all 7 fault kinds x 3 positions of each are rejected in both gate states, 14058 checks, on the unchanged tree), the compat shim.",
     "design_ref": "DESIGN.md section 3 (C33)",
 }
